@@ -13,12 +13,14 @@ package customize
 
 import (
 	"sync"
+	"time"
 
 	"k8s.io/apimachinery/pkg/apis/meta/v1/unstructured"
 	"k8s.io/apimachinery/pkg/runtime/schema"
 
 	"metacontroller/pkg/apis/metacontroller/v1alpha1"
 	"metacontroller/pkg/controller/common"
+	commonv2 "metacontroller/pkg/controller/common/api/v2"
 	dynamicdiscovery "metacontroller/pkg/dynamic/discovery"
 	dynamicinformer "metacontroller/pkg/dynamic/informer"
 	"metacontroller/pkg/zzverif/env"
@@ -170,20 +172,54 @@ func VerifC17_ConcurrentRelated() {
 		rt.Assert(err == nil, "concurrent-related/warm-up-error")
 	}
 
+	cm := env.ConfigMap("ns", "a", "cmuid", "x")
+	if warm {
+		stub.Stubs()[0].CompleteList(cm)
+	}
+	// the very first LIST of the related resource may still be in flight when
+	// the second worker arrives
+	slow := !warm && rt.Bool("first-list-of-the-related-resource-is-slow")
+	if slow {
+		rt.Cover("concurrent-related/slow-first-list")
+		stub.NextUnsynced = true
+	}
 	var wg sync.WaitGroup
 	var err1, err2 error
+	var n1, n2 int
+	count := func(m commonv2.UniformObjectMap) int {
+		n := 0
+		for _, group := range m {
+			n += len(group)
+		}
+		return n
+	}
 	wg.Add(2)
 	go func() {
 		defer wg.Done()
-		_, err1 = mgr.GetRelatedObjects(p1)
+		rel, err := mgr.GetRelatedObjects(p1)
+		err1, n1 = err, count(rel)
 	}()
 	go func() {
 		defer wg.Done()
-		_, err2 = mgr.GetRelatedObjects(p2)
+		rel, err := mgr.GetRelatedObjects(p2)
+		err2, n2 = err, count(rel)
 	}()
+	if slow {
+		time.Sleep(30 * time.Millisecond) // both workers are under way
+		stubs := stub.Stubs()
+		rt.Assert(len(stubs) == 1, "concurrent-related/not-exactly-one-informer-created")
+		if len(stubs) == 1 {
+			stubs[0].CompleteList(cm) // the LIST arrives
+		}
+	}
 	wg.Wait()
 	rt.Assert(err1 == nil, "concurrent-related/first-error")
 	rt.Assert(err2 == nil, "concurrent-related/second-error")
+	if warm || slow {
+		// same result as running the two syncs one after the other
+		// (one label: which of the two workers comes second is up to the scheduler)
+		rt.Assert(n1 == 1 && n2 == 1, "concurrent-related/a-worker-got-other-related-objects-than-a-lone-sync")
+	}
 	rt.Assert(factory.VerifRefCount("v1", "configmaps") == 1, "concurrent-related/not-exactly-one-subscription")
 	close(stopCh)
 	mgr.Stop()
